@@ -724,6 +724,16 @@ func coderRaceBatch(r *Run) {
 	out, err := cmd.Output()
 	r.Logf("race batch seed=%d GOMAXPROCS=%s err=%v", seed, procs, err)
 	r.Count("race-batch-runs")
+	// reach of the rare events inside the -race process (its probes are
+	// counted there, not here): carried over so that the evidence shows them
+	for _, name := range []string{"coder-reused-with-another-length", "reconstruct->64-missing-shards", "structured-shards"} {
+		key := strings.ReplaceAll(`"probe:`+name+`":`, ">", `\u003e`)
+		if i := strings.Index(string(out), key); i >= 0 {
+			n := 0
+			fmt.Sscanf(string(out)[i+len(key):], "%d", &n)
+			r.Add("probe:race-batch/"+name, n)
+		}
+	}
 	if strings.Contains(stderr.String(), "DATA RACE") {
 		r.Violate("race-detector", "the race detector reports a data race in the free-running coder (seed %d, GOMAXPROCS=%s): %s", seed, procs, lastLines(stderr.String(), 14))
 	}
